@@ -131,6 +131,25 @@ EtaTable(m, H) ==
 
 Eta(m, delta) == At(EtaTable(m, delta), delta)
 
+\* pointwise evaluation for models without delta-min prefixes (cheap also for very long intervals)
+RECURSIVE HasNoCurve(_)
+HasNoCurve(m) ==
+    CASE m.k \in {"never", "periodic", "sporadic", "user", "prop_sporadic"} -> TRUE
+      [] m.k \in {"prop", "jit", "wrap"} -> HasNoCurve(m.of)
+      [] m.k = "sum" -> HasNoCurve(m.a) /\ HasNoCurve(m.b)
+      [] IsSeqKind(m) -> \A i \in 1..Len(m.of) : HasNoCurve(m.of[i])
+      [] OTHER -> FALSE
+RECURSIVE EtaPt(_, _)
+EtaPt(m, delta) ==
+    CASE m.k = "never" -> 0
+      [] m.k = "periodic" -> CeilDiv(delta, m.T)
+      [] m.k \in {"sporadic", "user"} -> IF delta = 0 THEN 0 ELSE CeilDiv(delta + m.J, m.T)
+      [] m.k \in {"prop", "prop_sporadic"} -> IF delta = 0 THEN 0 ELSE EtaPt(m.of, delta + m.J)
+      [] m.k = "jit" -> EtaPt(AddJitter(m.of, m.J), delta)
+      [] m.k = "wrap" -> EtaPt(m.of, delta)
+      [] m.k = "sum" -> EtaPt(m.a, delta) + EtaPt(m.b, delta)
+      [] IsSeqKind(m) -> SumFn(LAMBDA j : EtaPt(m.of[j], delta), Len(m.of))
+
 \* the interval lengths at which the bound increases (what steps_iter must yield)
 Steps(m, H) == IncreasePoints(EtaTable(m, H))
 
